@@ -331,13 +331,15 @@ class C14:
                              cwd=d, stdout=subprocess.DEVNULL, stderr=subprocess.DEVNULL, env=dict(os.environ, PYTHONPATH=core.REPO))
         try:
             data = urllib.parse.urlencode({'language': lang, 'text': tex}).encode('ascii')
-            for attempt in range(60):
+            for attempt in range(300):
                 try:
-                    with urllib.request.urlopen('http://localhost:%d/v2/check' % port, data=data, timeout=10) as r:
+                    with urllib.request.urlopen('http://localhost:%d/v2/check' % port, data=data, timeout=60) as r:
                         return json.loads(r.read().decode('ascii'))
                 except OSError:
+                    if p.poll() is not None:
+                        break
                     time.sleep(0.1)
-            return None
+            raise core.HarnessError('the real --as-server process did not answer (not a property violation)')
         finally:
             p.terminate()
             p.wait()
